@@ -138,6 +138,24 @@ let replay_elim (b : itree) (a : itree) (log : Sexp.t list) : unit =
     else bump "mirror_mismatch"
   | _ -> bump "mirror_not_a_tree"
 
+(* T2 for the pruned composition: the logged answers, keyed by the query polytope, replayed into Pwl/CPrune.v;
+   comparison of shape, coefficients and cached states (arena indices of new nodes are not compared) *)
+let replay_cprune (f : itree) (g : itree) (h1 : itree) (log : Sexp.t list) : unit =
+  let lplog = List.filter_map (function
+      | List (Atom "lp" :: poly :: _ :: st :: _) ->
+        let p = aff_of poly in Some (List.combine p.a_mat p.a_bias, lpans_of st)
+      | _ -> None) log in
+  let fuel arena = nat_of_int (List.length arena + 1) in
+  let af = arena_of f and ah = arena_of h1 in
+  let rt t = nat_of_int (match t.root with Some r -> r | None -> 0) in
+  match cabs (fuel af) af (rt f), cabs (fuel ah) ah (rt h1), ptree_of g with
+  | Some cf, Some ch, Some pg ->
+    let (res, k) = compose_prune (oracle_by_rows lplog) tol cf pg in
+    if ctree_eqb_shape res ch then
+      (if int_of_nat k.k_lp = List.length lplog then bump "mirror_agree" else bump "mirror_agree_tree_only")
+    else bump "mirror_mismatch"
+  | _ -> bump "mirror_not_a_tree"
+
 let check (case : Sexp.t) : unit =
   match case with
   | List [Atom "case"; Atom id; Atom "elim"; Atom gen; sb; Atom oc; sa; counter; List (Atom "log" :: log); sa2; counter2; List (Atom "pts" :: pts)] ->
@@ -204,6 +222,7 @@ let check (case : Sexp.t) : unit =
           (match ptree_of h0, ptree_of h1, ptree_of f, ptree_of g with
            | Some p0, Some p1, Some pf, Some pg ->
              if ptree_has_u pg || ptree_has_u pf then bump "partial";
+             (try replay_cprune f g h1 log with Nonfinite -> bump "mirror_nonfinite");
              let ok1 = equiv_mod_thin ~id ~tag:"compose-prune-preserves" n p1 p0 in
              let ok2 = equiv_mod_thin ~id ~tag:"compose-prune-law" n p1 (compose pf pg) in
              let ok3 = points_check ~id ~tag:"evaluate" p1 pts in
